@@ -615,6 +615,9 @@ func c06Run(r *vkit.Run) {
 				// literals of several bytes whose first byte also occurs inside the captured value
 				visit(c06Input{Line: v1 + " - " + v2, Pre: pre, Stage: `<a> - <b>`, Kind: "wellformed", Parser: "pattern"})
 				visit(c06Input{Line: "x " + v1 + " -> " + v2 + " ->", Pre: pre, Stage: `x <a> -> <b> ->`, Kind: "wellformed", Parser: "pattern"})
+				// literals that are not ASCII
+				visit(c06Input{Line: v1 + " → " + v2, Pre: pre, Stage: `<a> → <b>`, Kind: "wellformed", Parser: "pattern"})
+				visit(c06Input{Line: "é" + v1 + "世" + v2 + "é", Pre: pre, Stage: `é<a>世<b>é`, Kind: "wellformed", Parser: "pattern"})
 			}
 		}
 	}
@@ -638,7 +641,7 @@ func c06Run(r *vkit.Run) {
 		}
 	}
 	visit(c06Input{Line: "not json", Stage: "unpack", Kind: "prefix", Parser: "unpack"})
-	r.Note("bounds", fmt.Sprintf("JSON: %d documents (<=%d fields over keys {a,b,a.b,'x y'} x 20 values incl. escapes, numbers (also integers beyond 2^53), booleans, null, nested; duplicate keys; two whitespace styles) x 8 json forms x with/without pre-existing labels, every strict prefix of a subset; path expressions: every nested document of depth <= 2 (arrays of <= 3, objects of <= 2; thorough: depth 3 over the small subtrees) with distinct leaves x every leaf path, every ordered pair of leaf paths in one stage, every inner path and every path one past the end; logfmt: %d records x 4 forms + 7 malformed; regexp: 10 patterns x up to 16 lines; pattern: 6 patterns x 81 value pairs; unpack: 30 packed entries and all their strict prefixes; sequences: 20 first records (malformed at several depths, cut, empty, other format) x 10 second records x 14 stages, the second record compared with its evaluation alone", len(docs), maxFields, len(lfDocs)))
+	r.Note("bounds", fmt.Sprintf("JSON: %d documents (<=%d fields over keys {a,b,a.b,'x y'} x 20 values incl. escapes, numbers (also integers beyond 2^53), booleans, null, nested; duplicate keys; two whitespace styles) x 8 json forms x with/without pre-existing labels, every strict prefix of a subset; path expressions: every nested document of depth <= 2 (arrays of <= 3, objects of <= 2; thorough: depth 3 over the small subtrees) with distinct leaves x every leaf path, every ordered pair of leaf paths in one stage, every inner path and every path one past the end; logfmt: %d records x 4 forms + 7 malformed; regexp: 10 patterns x up to 16 lines; pattern: 8 patterns (two with non-ASCII literals) x 81 value pairs; unpack: 30 packed entries and all their strict prefixes; sequences: 20 first records (malformed at several depths, cut, empty, other format) x 10 second records x 14 stages, the second record compared with its evaluation alone", len(docs), maxFields, len(lfDocs)))
 }
 
 func c06Replay(r *vkit.Run, v vkit.Violation) *vkit.Violation {
